@@ -5,56 +5,59 @@
 // Bounded: T = u8.  IdSet<T> uses T only through Eq/Hash (and the map stub R5 ignores the
 // hash value), so its behaviour on a history of inserts depends only on the EQUALITY
 // PATTERN of the inserted values.  The harnesses enumerate every equality pattern
-// (restricted-growth string) of histories of up to 3 inserts (quick: H3, 9 histories
-// incl. the empty one) or up to 4 inserts (thorough: H4, 24 histories) with concrete
-// representative values, then apply the operation under test; queried values and ids
-// are symbolic where that is affordable.  Concrete shapes are required because CBMC
-// needs > 4 GB as soon as the buffer-switching structure becomes symbolic.
+// (restricted-growth string) of histories of a stated length (sets Q3, H3, H4 below) with
+// concrete representative values, then apply the operation under test; queried values
+// are symbolic (any u8).  Concrete shapes are required because CBMC needs > 4 GB as soon as
+// the buffer-switching structure of the set becomes symbolic.
+//
+// Quick tier (Q3; iterators on the single history [0,1]) shares one history construction
+// between the read-only operations (harness q_readonly; assertion messages carry the tag
+// "[op]" of the obligation they belong to); thorough tier runs one harness per operation
+// over H3 (insert: H4; iterators: Q3).
 //
 // Model (C37: "a map-plus-vector model"): the insertion-ordered vector of distinct
 // values; id = position.
 use super::*;
 
 const VALS: [u8; 4] = [7, 200, 31, 8];
+/// a value no history contains
+const FRESH: u8 = 0x55;
 
-const H3: &[&[u8]] = &[
-    &[],
-    &[0],
-    &[0, 0],
-    &[0, 1],
-    &[0, 0, 0],
-    &[0, 0, 1],
-    &[0, 1, 0],
-    &[0, 1, 1],
-    &[0, 1, 2],
-];
+// History sets (applied by the macros below as straight-line calls, so that the unwind
+// bound only has to cover the loops over at most 4 elements):
+//   Q3 = { [0,0,1], [0,1,0], [0,1,2] }: duplicate with spare capacity, duplicate that
+//        triggers a buffer switch and is popped again, three distinct values (two switches)
+//   Q2 = { [0,1,0], [0,1,2] }
+//   H3 = all 9 equality patterns of histories of <= 3 inserts (incl. the empty history)
+//   H4 = all 24 equality patterns of histories of <= 4 inserts
+macro_rules! q3 {
+    ($($f:ident),+) => {
+        $($f(&[0, 0, 1]); $f(&[0, 1, 0]); $f(&[0, 1, 2]);)+
+    };
+}
 
-const H4: &[&[u8]] = &[
-    &[],
-    &[0],
-    &[0, 0],
-    &[0, 1],
-    &[0, 0, 0],
-    &[0, 0, 1],
-    &[0, 1, 0],
-    &[0, 1, 1],
-    &[0, 1, 2],
-    &[0, 0, 0, 0],
-    &[0, 0, 0, 1],
-    &[0, 0, 1, 0],
-    &[0, 0, 1, 1],
-    &[0, 0, 1, 2],
-    &[0, 1, 0, 0],
-    &[0, 1, 0, 1],
-    &[0, 1, 0, 2],
-    &[0, 1, 1, 0],
-    &[0, 1, 1, 1],
-    &[0, 1, 1, 2],
-    &[0, 1, 2, 0],
-    &[0, 1, 2, 1],
-    &[0, 1, 2, 2],
-    &[0, 1, 2, 3],
-];
+macro_rules! q2 {
+    ($($f:ident),+) => {
+        $($f(&[0, 1, 0]); $f(&[0, 1, 2]);)+
+    };
+}
+
+macro_rules! h3 {
+    ($($f:ident),+) => {
+        $($f(&[]); $f(&[0]); $f(&[0, 0]); $f(&[0, 1]);
+          $f(&[0, 0, 0]); $f(&[0, 0, 1]); $f(&[0, 1, 0]); $f(&[0, 1, 1]); $f(&[0, 1, 2]);)+
+    };
+}
+
+macro_rules! h4 {
+    ($($f:ident),+) => {
+        $($f(&[]); $f(&[0]); $f(&[0, 0]); $f(&[0, 1]);
+          $f(&[0, 0, 0]); $f(&[0, 0, 1]); $f(&[0, 1, 0]); $f(&[0, 1, 1]); $f(&[0, 1, 2]);
+          $f(&[0, 0, 0, 0]); $f(&[0, 0, 0, 1]); $f(&[0, 0, 1, 0]); $f(&[0, 0, 1, 1]); $f(&[0, 0, 1, 2]);
+          $f(&[0, 1, 0, 0]); $f(&[0, 1, 0, 1]); $f(&[0, 1, 0, 2]); $f(&[0, 1, 1, 0]); $f(&[0, 1, 1, 1]);
+          $f(&[0, 1, 1, 2]); $f(&[0, 1, 2, 0]); $f(&[0, 1, 2, 1]); $f(&[0, 1, 2, 2]); $f(&[0, 1, 2, 3]);)+
+    };
+}
 
 struct Model {
     v: [u8; 6],
@@ -88,9 +91,16 @@ impl Model {
 }
 
 fn in_buf(p: *const u8, b: &Vec<u8>) -> bool {
-    let a = p as usize;
-    let lo = b.as_ptr() as usize;
-    b.len() > 0 && a >= lo && a < lo + b.len()
+    // pointer equality per element (decided by constant propagation on concrete
+    // histories; an integer range test on addresses is opaque to CBMC's simplifier)
+    let mut i = 0;
+    while i < b.len() {
+        if std::ptr::eq(p, &b[i]) {
+            return true;
+        }
+        i += 1;
+    }
+    false
 }
 
 /// `p` points at a live element of one of THIS set's buffers
@@ -171,47 +181,100 @@ fn body_insert(pat: &[u8]) {
     }
 }
 
+fn ro_try_get_id(s: &IdSet<u8>, m: &Model) {
+    let x: u8 = kani::any();
+    assert!(s.try_get_id(&x) == m.pos(x), "[try_get_id] model: try_get_id agrees with the position in the model (any u8)");
+}
+
+fn ro_get_id(s: &IdSet<u8>, m: &Model) {
+    let x: u8 = kani::any();
+    if m.pos(x).is_some() {
+        // documented: panics when absent
+        assert!(Some(s.get_id(&x)) == m.pos(x), "[get_id] model: get_id agrees with the position in the model");
+    }
+}
+
+fn ro_index(s: &mut IdSet<u8>, m: &Model) {
+    let mut i = 0;
+    while i < m.n {
+        assert!(s[i as u32] == m.v[i], "[index] model: Index by id returns the i-th distinct value");
+        let r: &mut u8 = &mut s[i as u32];
+        assert!(*r == m.v[i], "[index] model: IndexMut by id designates the same element");
+        i += 1;
+    }
+}
+
+fn ro_contains(s: &IdSet<u8>, m: &Model) {
+    let x: u8 = kani::any();
+    assert!(s.contains(&x) == m.pos(x).is_some(), "[contains] model: contains (any u8)");
+}
+
+fn ro_len(s: &IdSet<u8>, m: &Model) {
+    assert!(s.len() == m.n, "[len] model: len == number of distinct values");
+    assert!(s.is_empty() == (m.n == 0), "[len] model: is_empty");
+}
+
+fn ro_iter(s: &IdSet<u8>, m: &Model) {
+    let mut it = s.iter();
+    let mut i = 0;
+    while i < m.n {
+        assert!(it.next() == Some(&m.v[i]), "[iter] model: iter yields values in insertion (= id) order");
+        i += 1;
+    }
+    assert!(it.next().is_none(), "[iter] model: iter yields exactly len values");
+    let mut k = 0;
+    for r in s {
+        assert!(k < m.n && *r == m.v[k], "[iter] model: IntoIterator for &IdSet is in id order");
+        k += 1;
+    }
+    assert!(k == m.n, "[iter] model: IntoIterator for &IdSet yields exactly len values");
+}
+
 fn body_try_get_id(pat: &[u8]) {
     let (s, m) = hist(pat);
-    let x: u8 = kani::any();
-    assert!(s.try_get_id(&x) == m.pos(x), "model: try_get_id agrees with the position in the model (any u8)");
+    ro_try_get_id(&s, &m);
     check(&s, &m);
 }
 
 fn body_get_id(pat: &[u8]) {
     let (s, m) = hist(pat);
-    let x: u8 = kani::any();
-    if m.pos(x).is_some() {
-        // documented: panics when absent
-        assert!(Some(s.get_id(&x)) == m.pos(x), "model: get_id agrees with the position in the model");
-    }
+    ro_get_id(&s, &m);
     check(&s, &m);
 }
 
 fn body_index(pat: &[u8]) {
     let (mut s, m) = hist(pat);
-    let mut i = 0;
-    while i < m.n {
-        assert!(s[i as u32] == m.v[i], "model: Index by id returns the i-th distinct value");
-        let r: &mut u8 = &mut s[i as u32];
-        assert!(*r == m.v[i], "model: IndexMut by id designates the same element");
-        i += 1;
-    }
+    ro_index(&mut s, &m);
     check(&s, &m);
 }
 
 fn body_contains(pat: &[u8]) {
     let (s, m) = hist(pat);
-    let x: u8 = kani::any();
-    assert!(s.contains(&x) == m.pos(x).is_some(), "model: contains (any u8)");
+    ro_contains(&s, &m);
     check(&s, &m);
 }
 
 fn body_len(pat: &[u8]) {
     let (s, m) = hist(pat);
-    assert!(s.len() == m.n, "model: len == number of distinct values");
-    assert!(s.is_empty() == (m.n == 0), "model: is_empty");
+    ro_len(&s, &m);
     check(&s, &m);
+}
+
+fn body_iter(pat: &[u8]) {
+    let (s, m) = hist(pat);
+    ro_iter(&s, &m);
+    check(&s, &m);
+}
+
+/// quick tier: all read-only operations on one construction of each history
+fn body_readonly(pat: &[u8]) {
+    let (mut s, m) = hist(pat);
+    ro_len(&s, &m);
+    ro_try_get_id(&s, &m);
+    ro_get_id(&s, &m);
+    ro_contains(&s, &m);
+    ro_index(&mut s, &m);
+    check(&s, &m); // none of them changed the set
 }
 
 fn body_clear(pat: &[u8]) {
@@ -226,28 +289,6 @@ fn body_clear(pat: &[u8]) {
     let id = s.insert(VALS[0]);
     assert!(id == m.insert(VALS[0]), "model: second id after clear is 1");
     check(&s, &m);
-}
-
-fn body_iter(pat: &[u8]) {
-    let (s, m) = hist(pat);
-    let mut it = s.iter();
-    let mut i = 0;
-    while i < m.n {
-        assert!(it.next() == Some(&m.v[i]), "model: iter yields values in insertion (= id) order");
-        i += 1;
-    }
-    assert!(it.next().is_none(), "model: iter yields exactly len values");
-    check(&s, &m);
-}
-
-fn body_ref_into_iter(pat: &[u8]) {
-    let (s, m) = hist(pat);
-    let mut k = 0;
-    for r in &s {
-        assert!(k < m.n && *r == m.v[k], "model: IntoIterator for &IdSet is in id order");
-        k += 1;
-    }
-    assert!(k == m.n, "model: IntoIterator for &IdSet yields exactly len values");
 }
 
 fn body_into_iter(pat: &[u8]) {
@@ -265,13 +306,14 @@ fn body_clone(pat: &[u8]) {
     let (s, m) = hist(pat);
     let mut c = s.clone();
     check(&c, &m); // the clone is wf ON ITS OWN buffers and equals the model
-    check(&s, &m); // the original is unchanged
     // the two evolve independently
     let mut mc = Model { v: m.v, n: m.n };
-    let id = c.insert(VALS[3]);
-    assert!(id == mc.insert(VALS[3]), "model: insert into the clone");
+    let id = c.insert(FRESH);
+    assert!(id == mc.insert(FRESH), "model: insert into the clone");
     check(&c, &mc);
+    // the original is unchanged and does not see the clone's insert
     check(&s, &m);
+    assert!(s.try_get_id(&FRESH).is_none(), "model: the original does not see the clone's insert");
 }
 
 fn body_clone_drop(pat: &[u8]) {
@@ -289,7 +331,7 @@ fn body_clone_drop(pat: &[u8]) {
 
 fn body_clone_clear(pat: &[u8]) {
     let (mut s, m) = hist(pat);
-    let mut c = s.clone();
+    let c = s.clone();
     s.clear();
     s.insert(0xEE); // reuse of the original must not disturb the clone either
     let mut i = 0;
@@ -298,42 +340,23 @@ fn body_clone_clear(pat: &[u8]) {
         i += 1;
     }
     check(&c, &m);
-    let mut mc = Model { v: m.v, n: m.n };
-    let id = c.insert(VALS[3]);
-    assert!(id == mc.insert(VALS[3]), "clone independent: insert into the clone after the original was cleared");
-    check(&c, &mc);
 }
 
 // ------------------------------------------------------------------ harnesses
 
-macro_rules! over_histories {
-    ($quick:ident, $thorough:ident, $($body:ident),+) => {
+macro_rules! harness {
+    ($name:ident, $hs:ident, $what:expr, $($body:ident),+) => {
         #[kani::proof]
-        #[kani::unwind(12)]
-        fn $quick() {
-            let mut h = 0;
-            while h < H3.len() {
-                $($body(H3[h]);)+
-                h += 1;
-            }
-            kani::cover!(true, "reachable: all histories of <= 3 inserts executed");
-        }
-
-        #[kani::proof]
-        #[kani::unwind(12)]
-        fn $thorough() {
-            let mut h = 0;
-            while h < H4.len() {
-                $($body(H4[h]);)+
-                h += 1;
-            }
-            kani::cover!(true, "reachable: all histories of <= 4 inserts executed");
+        #[kani::unwind(7)]
+        fn $name() {
+            $hs!($($body),+);
+            kani::cover!(true, $what);
         }
     };
 }
 
 #[kani::proof]
-#[kani::unwind(12)]
+#[kani::unwind(7)]
 fn op_new() {
     let s: IdSet<u8> = IdSet::new();
     let m = Model::new();
@@ -347,14 +370,38 @@ fn op_new() {
     kani::cover!(true, "reachable");
 }
 
-over_histories!(op_insert, op_insert_h4, body_insert);
-over_histories!(op_try_get_id, op_try_get_id_h4, body_try_get_id);
-over_histories!(op_get_id, op_get_id_h4, body_get_id);
-over_histories!(op_index, op_index_h4, body_index);
-over_histories!(op_contains, op_contains_h4, body_contains);
-over_histories!(op_len, op_len_h4, body_len);
-over_histories!(op_clear, op_clear_h4, body_clear);
-over_histories!(op_iter, op_iter_h4, body_iter, body_ref_into_iter);
-over_histories!(op_into_iter, op_into_iter_h4, body_into_iter);
-over_histories!(op_clone, op_clone_h4, body_clone);
-over_histories!(clone_independent, clone_independent_h4, body_clone_drop, body_clone_clear);
+// ---- quick tier
+harness!(q_insert, q3, "reachable: histories Q3 executed, checked after every insert", body_insert);
+harness!(q_readonly, q3, "reachable: histories Q3 executed", body_readonly);
+harness!(q_clear, q3, "reachable: histories Q3 executed", body_clear);
+harness!(q_clone, q3, "reachable: histories Q3 executed", body_clone);
+harness!(q_clone_drop, q3, "reachable: histories Q3 executed (original dropped)", body_clone_drop);
+harness!(q_clone_clear, q2, "reachable: histories [a,b,a], [a,b,c] executed (original cleared and reused)", body_clone_clear);
+
+#[kani::proof]
+#[kani::unwind(7)]
+fn q_iter() {
+    body_iter(&[0, 1]);
+    kani::cover!(true, "reachable: history [0,1] executed");
+}
+
+#[kani::proof]
+#[kani::unwind(7)]
+fn q_into_iter() {
+    body_into_iter(&[0, 1]);
+    kani::cover!(true, "reachable: history [0,1] executed");
+}
+
+// ---- thorough tier: one harness per operation
+harness!(t_insert, h4, "reachable: all 24 histories of <= 4 inserts executed", body_insert);
+harness!(t_try_get_id, h3, "reachable: all 9 histories of <= 3 inserts executed", body_try_get_id);
+harness!(t_get_id, h3, "reachable: all 9 histories of <= 3 inserts executed", body_get_id);
+harness!(t_index, h3, "reachable: all 9 histories of <= 3 inserts executed", body_index);
+harness!(t_contains, h3, "reachable: all 9 histories of <= 3 inserts executed", body_contains);
+harness!(t_len, h3, "reachable: all 9 histories of <= 3 inserts executed", body_len);
+harness!(t_clear, h3, "reachable: all 9 histories of <= 3 inserts executed", body_clear);
+harness!(t_clone, h3, "reachable: all 9 histories of <= 3 inserts executed", body_clone);
+harness!(t_clone_drop, h3, "reachable: all 9 histories of <= 3 inserts executed", body_clone_drop);
+harness!(t_clone_clear, h3, "reachable: all 9 histories of <= 3 inserts executed", body_clone_clear);
+harness!(t_iter, q3, "reachable: histories Q3 executed", body_iter);
+harness!(t_into_iter, q3, "reachable: histories Q3 executed", body_into_iter);
